@@ -162,13 +162,14 @@ def trim (pp : UParams F) (supported : Nat) : Except Err (CK F × VK F) :=
 
 /-! ### `commit` -/
 
-/-- `MultilinearPC::commit(ck, polynomial)`: `msm_bigint(&ck.powers_of_g[0], evaluations)`.  The code
-does NOT compare `polynomial.num_vars()` with `ck.nv`: the MSM silently truncates to the shorter
-operand, and the commitment records the polynomial's own `nv`.  Only an empty table list panics. -/
+/-- `MultilinearPC::commit(ck, polynomial)`: `assert_eq!(polynomial.num_vars(), ck.nv)`, then
+`msm_bigint(&ck.powers_of_g[0], evaluations)` (an empty table list panics on the index). -/
 def commit (ck : CK F) (nv : Nat) (evals : List F) : Except Err (Commitment F) :=
-  match ck.powersOfG with
-  | [] => .error .abort                              -- `ck.powers_of_g[0]`
-  | p0 :: _ => .ok ⟨nv, dot p0 evals⟩
+  if nv ≠ ck.nv then .error .abort
+  else
+    match ck.powersOfG with
+    | [] => .error .abort                            -- `ck.powers_of_g[0]`
+    | p0 :: _ => .ok ⟨nv, dot p0 evals⟩
 
 /-! ### `open` -/
 
@@ -177,7 +178,7 @@ def commit (ck : CK F) (nv : Nat) (evals : List F) : Except Err (Commitment F) :
 def foldStep (z : F) : List F → List F × List F
   | a :: b :: rest =>
     let (q, r') := foldStep z rest
-    ((b - a) :: q, (a * (1 - z) + b * z) :: r')
+    ((a - b) :: q, (a * (1 - z) + b * z) :: r')
   | _ => ([], [])
 
 /-- `(0..(1 << k)).map(|x| q[k][x >> 1])`: every quotient evaluation twice -/
@@ -186,8 +187,7 @@ def dup : List F → List F
   | a :: as => a :: a :: dup as
 
 /-- The loop `for i in 0..nv` of `open`, entered with `cnt = nv − i`, `hs = ck.powers_of_h[i..]`,
-`r = r[nv − i]`, `point = point[i..]`.  `point[i]` and `ck.powers_of_h[i]` panic when out of range;
-surplus point coordinates are never read. -/
+`r = r[nv − i]`, `point = point[i..]`.  `point[i]` and `ck.powers_of_h[i]` panic when out of range. -/
 def openLoop : Nat → List (List F) → List F → List F → Except Err (List F)
   | 0, _, _, _ => .ok []
   | cnt + 1, hs, r, point =>
@@ -203,11 +203,12 @@ def openLoop : Nat → List (List F) → List F → List F → Except Err (List 
         | .error e => .error e
         | .ok ps => .ok (pi :: ps)
 
-/-- `MultilinearPC::open(ck, polynomial, point)`: `assert_eq!(polynomial.num_vars(), ck.nv)`; the
-evaluation vector of a `DenseMultilinearExtension` has length `2^nv` by construction
-(`from_evaluations_vec` asserts it), which the model checks here. -/
+/-- `MultilinearPC::open(ck, polynomial, point)`: `assert_eq!(polynomial.num_vars(), ck.nv)`,
+`assert_eq!(point.len(), ck.nv)`; the evaluation vector of a `DenseMultilinearExtension` has length
+`2^nv` by construction (`from_evaluations_vec` asserts it), which the model checks here. -/
 def «open» (ck : CK F) (nv : Nat) (evals : List F) (point : List F) : Except Err (List F) :=
   if nv ≠ ck.nv then .error .abort
+  else if point.length ≠ ck.nv then .error .abort
   else if evals.length ≠ 2 ^ nv then .error .abort
   else openLoop nv ck.powersOfH evals point
 
@@ -223,12 +224,13 @@ def pairingLefts (vk : VK F) (point : List F) : List F :=
 def defect (vk : VK F) (c : Commitment F) (point : List F) (v : F) (proofs : List F) : F :=
   (c.gProduct - vk.g * v) * vk.h - dot (pairingLefts vk point) proofs
 
-/-- `MultilinearPC::check`.  Aborts when `point` or `g_mask_random` has fewer than `vk.nv` entries
-(index out of bounds) and when `proof.proofs.len() ≠ vk.nv` (`multi_miller_loop` uses `zip_eq`).
-Surplus point coordinates and `commitment.nv` are never read. -/
+/-- `MultilinearPC::check`: `assert_eq!(point.len(), vk.nv)`; aborts when `g_mask_random` has fewer
+than `vk.nv` entries (index out of bounds) and when `proof.proofs.len() ≠ vk.nv`
+(`multi_miller_loop` uses `zip_eq`).  `commitment.nv` is never read. -/
 def check [DecidableEq F] (vk : VK F) (c : Commitment F) (point : List F) (v : F)
     (proofs : List F) : Except Err Bool :=
-  if point.length < vk.nv ∨ vk.gMaskRandom.length < vk.nv then .error .abort
+  if point.length ≠ vk.nv then .error .abort
+  else if vk.gMaskRandom.length < vk.nv then .error .abort
   else if proofs.length ≠ vk.nv then .error .abort
   else .ok (decide (defect vk c point v proofs = 0))
 
